@@ -1,5 +1,6 @@
 import RawPanelVerif.Lemmas.GfxAgree
 import RawPanelVerif.Lemmas.GfxCor
+import RawPanelVerif.Lemmas.GfxJson
 /-!
 C05: the encoder / clean-run statements in the Spec's own terms (`Spec.Gfx.checkEnc`, `cleanRuns`, `checkClean`),
 lifted from the model-level theorems through `parseLine_eq_readLine`.
@@ -803,7 +804,7 @@ theorem clean_run_spec_all (g : Img) (id : Nat) (hid : id < 2 ^ 32) (hr : InRang
     Spec.Gfx.checkClean (sentOf g) [id] (all.map trimSpace) (delivsOfStream (Stream.run Stream.parse all).2) = none ∧
     Spec.Gfx.checkClean (sentOf g) [id] (all.map trimSpace) (delivsOfStream (Serial.run Stream.parse all).2) = none := by
   have hser : (Serial.run Stream.parse all).2 = (Stream.run Stream.parse all).2 :=
-    (serial_stream Stream.parse all none 0).1
+    (serial_stream all none 0).1
   rw [hser]
   have hf1 : ∀ o, Unrelated o → Spec.Gfx.parseLine ((fun x => x) o) = none :=
     fun o h => parseLine_none_of_parseLine? o h.1
@@ -895,7 +896,7 @@ theorem map_readLine (lines : List Bytes) : lines.map readLine = lines.map Spec.
   exact (parseLine_eq_readLine l).symm
 
 theorem map_readTrimmed (lines : List Bytes) :
-    lines.map readTrimmed = (lines.map Trim.trimSpace).map Spec.Gfx.parseLine := by
+    lines.map readTrimmed = (lines.map Bytes.trimSpace).map Spec.Gfx.parseLine := by
   rw [List.map_map]
   congr 1
   funext l
